@@ -1,8 +1,16 @@
 #!/bin/sh
-# seedall.sh: run every stored seeded change against the checks listed in its meta.json (plus its own property's check)
+# seedall.sh: run every stored seeded change against the checks that meta.json says detect it (the property's own check first when it is
+# one of them); with FAST=1 stop at the first check that reports a violation.  Needs /repo to itself.
 cd /verif
 for d in seeded/*/; do
-  ids=$(python3 -c "import json,sys; m=json.load(open('$d/meta.json')); print(' '.join(dict.fromkeys([m['property']]+m.get('detected_by_checks',[]))))")
+  ids=$(python3 -c "import json,sys; m=json.load(open('$d/meta.json')); det=m.get('detected_by_checks',[]); p=m['property']; print(' '.join(dict.fromkeys(([p] if p in det else [])+det+([] if p in det else []))))")
   echo "=== $d ($ids)"
-  ./seedrun.sh /verif/$d/patch.diff $ids
+  if [ -n "$FAST" ]; then
+    for id in $ids; do
+      out=$(./seedrun.sh /verif/$d/patch.diff $id); echo "$out"
+      echo "$out" | grep -q "exit=1" && break
+    done
+  else
+    ./seedrun.sh /verif/$d/patch.diff $ids
+  fi
 done
